@@ -243,40 +243,80 @@ def extract_facts() -> dict[str, Any]:
     if len(body) != len(_PRE) + 2 or [ast.unparse(s) for s in body[: len(_PRE)]] != _PRE:
         shape_ok = False
     loop = body[len(_PRE)] if len(body) > len(_PRE) else None
-    if (
+    norms = {"np.linalg.norm(diff, ord=2)", "np.linalg.norm(diff)", "np.linalg.norm(diff, 2)"}
+
+    def norm_test(t: ast.expr) -> type | None:
+        """operator of `<norm> OP tolerance` (mirrored when written `tolerance OP <norm>`), else None"""
+        if not (isinstance(t, ast.Compare) and len(t.ops) == 1):
+            return None
+        left, op, right = ast.unparse(t.left), type(t.ops[0]), ast.unparse(t.comparators[0])
+        if left in norms and right == "tolerance":
+            return op
+        if right in norms and left == "tolerance":
+            return {ast.Lt: ast.Gt, ast.LtE: ast.GtE, ast.Gt: ast.Lt, ast.GtE: ast.LtE}.get(op)
+        return None
+
+    ok_loop = (
         isinstance(loop, ast.For)
         and ast.unparse(loop.target) == "_"
         and ast.unparse(loop.iter) == "range(max_steps)"
         and not loop.orelse
-        and len(loop.body) in (5, 6)
-        and (len(loop.body) == 5 or ast.unparse(loop.body[1]) == _SUCC_CHECK)
-    ):
-        # the test of integ.successful() directly after the integration step (fixes/C15-integrator-failure.diff)
-        facts["succ"] = "SuccChecked" if len(loop.body) == 6 else "SuccUnchecked"
-        s0, s1, s2, s3, s4 = [loop.body[0], *loop.body[-4:]]
+    )
+    # two forms of the loop body (each with or without the test of integ.successful() after the first statement):
+    #   A  y2 = ..; diff = ..; if norm < tol: return ok;  y1 = y2;  t += step_size                     (5 / 6 statements)
+    #   B  y2 = ..; diff = ..; if norm >= tol: (y1 = y2; t += step_size; continue);  return ok           (4 / 5 statements)
+    # B is A on numbers, but a NaN norm falls through to the success return (sf_cmp = CmpNotGe / CmpNotGt)
+    form = None
+    if ok_loop:
+        lb = loop.body
+        n_tail = None
+        if len(lb) >= 4 and isinstance(lb[-2], ast.If) and ast.unparse(lb[-1]) == _RETURN_OK and isinstance(lb[-2].body[-1], ast.Continue):
+            form, n_tail = "B", 3
+        elif len(lb) >= 5:
+            form, n_tail = "A", 4
+        if form is not None:
+            head = lb[: len(lb) - n_tail]
+            if len(head) == 1:
+                facts["succ"] = "SuccUnchecked"
+            elif len(head) == 2 and ast.unparse(head[1]) == _SUCC_CHECK:
+                facts["succ"] = "SuccChecked"  # the test of integ.successful() directly after the integration step
+            else:
+                form = None
+    if form is not None:
+        lb = loop.body
+        s0 = lb[0]
+        if form == "A":
+            s1, s2, s3, s4 = lb[-4:]
+            test_if, prev_assign, advance = s2, s3, s4
+            shape_ok = shape_ok and (isinstance(s2, ast.If) and not s2.orelse and [ast.unparse(x) for x in s2.body] == [_RETURN_OK])
+            cmp_map = {ast.Lt: "CmpLt", ast.LtE: "CmpLe"}
+        else:
+            s1, s2, _ret = lb[-3:]
+            test_if = s2
+            inner = s2.body
+            if s2.orelse or len(inner) != 3:
+                shape_ok = False
+                prev_assign = advance = None
+            else:
+                prev_assign, advance = inner[0], inner[1]
+            cmp_map = {ast.GtE: "CmpNotGe", ast.Gt: "CmpNotGt"}
         new_kind = prev_kind = None
         if isinstance(s0, ast.Assign) and ast.unparse(s0.targets[0]) == "y2" and len(s0.targets) == 1:
             v = ast.unparse(s0.value)
             new_kind = "copy" if v in _COPY_NEW else "alias" if v in _ALIAS_NEW else None
-        if isinstance(s3, ast.Assign) and ast.unparse(s3.targets[0]) == "y1" and len(s3.targets) == 1:
-            v = ast.unparse(s3.value)
+        if isinstance(prev_assign, ast.Assign) and ast.unparse(prev_assign.targets[0]) == "y1" and len(prev_assign.targets) == 1:
+            v = ast.unparse(prev_assign.value)
             prev_kind = "ref" if v == "y2" else "copy" if v in _COPY_PREV else None
         if new_kind and prev_kind:
             facts["prev"] = "PrevCopy" if (new_kind == "copy" or prev_kind == "copy") else "PrevAlias"
         if ast.unparse(s1) == "diff = (y2 - y1) / y1 if rel_norm else y2 - y1":
             facts["rel"] = "RelDivPrev"
-        if isinstance(s2, ast.If) and not s2.orelse and [ast.unparse(x) for x in s2.body] == [_RETURN_OK]:
-            t = s2.test
-            if isinstance(t, ast.Compare) and len(t.ops) == 1:
-                left, op, right = ast.unparse(t.left), t.ops[0], ast.unparse(t.comparators[0])
-                norms = {"np.linalg.norm(diff, ord=2)", "np.linalg.norm(diff)", "np.linalg.norm(diff, 2)"}
-                if left in norms and right == "tolerance":
-                    facts["norm"] = "NormL2"
-                    facts["cmp"] = {ast.Lt: "CmpLt", ast.LtE: "CmpLe"}.get(type(op), "CmpUnknown")
-                elif right in norms and left == "tolerance":
-                    facts["norm"] = "NormL2"
-                    facts["cmp"] = {ast.Gt: "CmpLt", ast.GtE: "CmpLe"}.get(type(op), "CmpUnknown")
-        if ast.unparse(s4) != "t += step_size":
+        if isinstance(test_if, ast.If):
+            op = norm_test(test_if.test)
+            if op is not None:
+                facts["norm"] = "NormL2"
+                facts["cmp"] = cmp_map.get(op, "CmpUnknown")
+        if advance is None or ast.unparse(advance) != "t += step_size":
             shape_ok = False
     else:
         shape_ok = False
@@ -914,19 +954,29 @@ def check(run: Run) -> None:
         "but still judged by the oracle. HISTORIES: 2-3 operations simulate / simulate_time_course / simulate_to_steady_state on one "
         "Simulator (half of the networks without steady state; integration failures injected into some simulate steps), then "
         "get_result; non-trivial = at least two operations. SINGULAR: dx/dt = k x^2 and k/(1-x), whose solution stops existing before "
-        "or during the search (the solver fails). RECORDED RUNS: every search above whose binary64 norm decisions are not within 1e-9 "
-        "of the tolerance is replayed through the Gallina loop on the solver's own buffers and success flags."
+        "or during the search (the solver fails). NaN NORMS: relative norm on slowly relaxing pools/chains (contraction 0.1-0.7 per step, "
+        "started far from the steady state) next to a pool that stays exactly 0 (0/0), and networks whose rate law (sqrt(1-x), "
+        "arcsin(x)) leaves its domain while x accumulates without bound (NaN state, the solver still reports success): the "
+        "criterion cannot be evaluated, the only acceptable outcomes are a failure value or a genuine steady state. PARAMETER "
+        "SWEEPS: one Simulator, clear_results / update_parameter / simulate_to_steady_state().get_result() for three values of a "
+        "rate constant, results read only AFTER the sweep: each must be the steady state of ITS parameter set with balancing "
+        "fluxes. RECORDED RUNS: every search above whose binary64 norm decisions are not within 1e-9 of the tolerance is replayed "
+        "through the Gallina loop over IEEE values (finite | inf | NaN) on the solver's own buffers and success flags."
     )
     proofs_ok = run.check_proofs(AREA, PROPS)
     run.assumptions += [
         "Coq 8.16.1 kernel + vm_compute; loop/accumulation/alias/plumbing theorems are closed under the global context; "
-        "integrator-failure and history theorems likewise closed; "
+        "integrator-failure, history and IEEE-loop (NaN/inf) theorems likewise closed; "
         "the norm/distance theorems use Coq.Reals (ClassicalDedekindReals.sig_forall_dec, sig_not_dec, "
         "FunctionalExtensionality.functional_extensionality_dep, Classical_Prop.classic)",
         "the ODE solver (scipy LSODA) is NOT modelled: the loop is proved over an abstract sampled trajectory; that the solver's "
         "samples follow the flow is validated only (closed-form comparison with margin)",
         "fact extractor harness/c15.py::extract_facts (fail-closed ast matcher; templates for reset, Simulator plumbing, scan worker)",
-        "binary64 evaluation of norm/subtraction/division is modelled by exact rational arithmetic; overflow/underflow are outside the model",
+        "binary64 evaluation of norm/subtraction/division is modelled by exact rational arithmetic on finite values and by the IEEE "
+        "rules for inf/NaN (SteadyNan.v: x/0, 0/0, inf-inf, NaN propagation, every comparison with NaN False); rounding, "
+        "overflow/underflow of finite intermediates and the sign of zero are outside the model",
+        "Simulation._compute_args / lazy flux evaluation is NOT modelled in Coq (property C10's area): that every collected "
+        "steady-state result reports the fluxes of its own parameter set is validated by the sweep oracle only",
         "correspondence harness: mpmath closed form (50 digits, samples rounded to 2^-32 relative), literal printer, coqc output parser",
         "oracle constants: integration error per sample <= 320 * (1e-6*max|y_i| + 1e-12) (100 x worst observed)",
         "what each integrator call returns inside a history, and the buffers/success flags of scipy.integrate.ode.integrate, are "
@@ -1099,11 +1149,104 @@ def check(run: Run) -> None:
         if steps and not out["kind"].startswith("Err") and c15_hist.float_decisions_robust([spec["x0"]], steps, tol, rel):
             rec_defs.append((f"singular {spec} tol={tol} rel_norm={rel} impl={out['kind']}",
                              c15_hist.recorded_coq_case(0, [spec["x0"]], steps, tol, rel, out["kind"], out.get("t"))))
+    # ---- (d) NaN norms: a criterion that cannot be evaluated is not convergence
+    nrng = common.rng_for(run.seed, "c15-nan")
+    n_nan = 60 if thorough else 14
+    max_nan_long = 8 if thorough else 2
+    n_nan_long = 0
+    nstats = {"cases": 0, "empty_pool_rel": 0, "out_of_domain": 0, "reported_failure": 0, "reported_steady": 0,
+              "steps_with_nan_norm": 0, "recorded_compared": 0}
+    for ni in range(n_nan):
+        if ni % 2 == 0:
+            net = c15_hist.demo_emptypool() if ni == 0 else c15_hist.gen_emptypool(nrng)
+            tol, rel = nrng.choice([1e-3, 1e-4, 1e-6, 1e-6]), True
+            out = run_impl(net, tol, rel)
+            steps = out.pop("steps", [])
+            verdict = oracle(net, tol, rel, out, {})
+            rep = {"kind": "case", "net": net, "tol": tol, "rel": rel, "impl": out}
+            y0f = [float(v) for v in net["y0"]]
+            desc = f"empty pool, relative norm: reactions={net['reactions']} y0={net['y0']} user_y0={net['user_y0']} tol={tol} impl={out['kind']}"
+            nstats["empty_pool_rel"] += 1
+            run.count_case(("nan-emptypool", net["reactions"], net["y0"], net["user_y0"], tol), nontrivial=True)
+            is_long = True
+        else:
+            spec = c15_hist.gen_domain(nrng) if ni > 1 else {"law": "sqrt", "k_in": 0.05, "kd": 0.01, "x0": 0.0}
+            rel = nrng.random() < 0.35
+            tol = nrng.choice([1e-4, 1e-6] if rel else [1e-1, 1e-2, 1e-4, 1e-6, 1e-6, 1e-8])
+            if ni == 1:
+                rel, tol = False, 1e-6
+            out = c15_hist.run_domain(spec, tol, rel)
+            steps = out.pop("steps", [])
+            verdict = c15_hist.domain_oracle(spec, tol, rel, out)
+            rep = {"kind": "domain", "spec": spec, "tol": tol, "rel": rel}
+            y0f = [float(spec["x0"]), 0.0]
+            desc = f"rate law leaving its domain: {spec} tol={tol} rel_norm={rel} impl={out['kind']}"
+            nstats["out_of_domain"] += 1
+            run.count_case(("nan-domain", spec["law"], spec["k_in"], spec["kd"], spec["x0"], tol, rel), nontrivial=True)
+            is_long = False
+        nstats["cases"] += 1
+        nstats["reported_steady" if out["kind"] == "Steady" else "reported_failure"] += 1
+        prev = y0f
+        for yv, _ok in steps:
+            comps = [((b - a) / a if a != 0.0 else (math.nan if b - a == 0.0 or b != b else math.inf)) if rel else b - a for a, b in zip(prev, yv)]
+            nstats["steps_with_nan_norm"] += any(c != c for c in comps)
+            prev = yv
+        if ni in (0, 1):
+            run.sample({"nan_stage": desc, "first_buffers": steps[:3], "impl": out})
+        if verdict is not None:
+            cls, what = verdict
+            if cls.startswith("finding:") and cls.split(":", 1)[1] in known_ids:
+                finding_hits += 1
+            elif cls.startswith("undecided:"):
+                stats["oracle_undecided_border"] = stats.get("oracle_undecided_border", 0) + 1
+            elif n_viol < 8:
+                n_viol += 1
+                run.violation(what, rep)
+        if steps and not out["kind"].startswith(("Err", "OtherFailure")) and c15_hist.float_decisions_robust(y0f, steps, tol, rel):
+            if not is_long or len(steps) <= 60 or n_nan_long < max_nan_long:
+                n_nan_long += is_long and len(steps) > 60
+                nstats["recorded_compared"] += 1
+                rec_defs.append((desc, c15_hist.recorded_coq_case(0, y0f, steps, tol, rel, out["kind"], out.get("t"))))
+
+    # ---- (e) parameter sweeps on ONE Simulator: every collected result reports ITS OWN steady state and fluxes
+    wrng = common.rng_for(run.seed, "c15-sweep")
+    n_sweep = 30 if thorough else 6
+    wstats = {"sweeps": 0, "results": 0, "results_steady": 0}
+    for wi in range(n_sweep):
+        if wi == 0:  # seeded change C15-6, demo: -> x -> y ->, k1 in (0.25, 1, 4), user-supplied initial values
+            net = {"kind": "chain2", "d": 2, "reactions": [("in", 0, 1.0), ("conv", 0, 1, 1.0), ("out", 1, 0.5)], "has_ss": True,
+                   "y0": [2.0, 3.0], "user_y0": True, "y0_default": [0.0, 0.0]}
+            tol, rel, r_idx, values = 1e-8, False, 1, [0.25, 1.0, 4.0]
+        else:
+            for _ in range(400):
+                net, tol, rel = gen_case(wrng)
+                if net["has_ss"] and net["kind"] in ("pool", "chain2", "chain3", "rev", "branch") and tol > 0 and not rel:
+                    break
+            cands = [r for r, rx in enumerate(net["reactions"]) if rx[0] in ("out", "conv")]
+            r_idx = wrng.choice(cands)
+            k = float(net["reactions"][r_idx][-1])
+            values = [k * f for f in wrng.sample([0.25, 0.5, 1.0, 2.0, 4.0], 3)]
+        sw = c15_hist.run_sweep(net, r_idx, values, tol, rel)
+        wstats["sweeps"] += 1
+        wstats["results"] += len(sw["results"])
+        wstats["results_steady"] += sum(1 for r in sw["results"] if r["kind"] == "Steady")
+        run.count_case(("sweep", net["reactions"], net["y0"], net["user_y0"], tol, rel, r_idx, tuple(values)), nontrivial=True)
+        if wi == 0:
+            run.sample({"sweep": {"parameter": f"p{r_idx}", "values": values}, "net": {k2: net[k2] for k2 in ("kind", "reactions", "y0", "user_y0")},
+                        "tol": tol, "results_read_after_the_sweep": sw["results"]})
+        verdict = c15_hist.sweep_oracle(net, r_idx, values, tol, rel, sw)
+        if verdict is not None:
+            cls, what = verdict
+            if cls.startswith("finding:") and cls.split(":", 1)[1] in known_ids:
+                finding_hits += 1
+            elif n_viol < 10:
+                n_viol += 1
+                run.violation(what, {"kind": "sweep", "net": net, "tol": tol, "rel": rel, "r_idx": r_idx, "values": values})
     stats["recorded_runs_compared"] = len(rec_defs)
     stats["histories_compared"] = len(hist_defs)
 
     run.coverage["input_distribution"] = {
-        "history_stage": {**hstats, "shapes": hshapes}, "singular_stage": sstats,
+        "history_stage": {**hstats, "shapes": hshapes}, "singular_stage": sstats, "nan_norm_stage": nstats, "sweep_stage": wstats,
         "network_kinds": kinds, "impl_outcomes": outcomes, "tolerances": tol_hist, **stats,
         "known_finding_family_hits": finding_hits,
     }
@@ -1268,6 +1411,30 @@ def replay(rep: dict) -> int:
         if verdict is None:
             return 0
         return 0 if (verdict[0].startswith("finding:") and verdict[0].split(":", 1)[1] in known) else 1
+    if r.get("kind") == "domain":
+        common.quiet_impl_logging()
+        spec = r["spec"]
+        tol, rel = float(r["tol"]), bool(r["rel"])
+        out = c15_hist.run_domain(spec, tol, rel)
+        steps = out.pop("steps", [])
+        verdict = c15_hist.domain_oracle(spec, tol, rel, out)
+        print("implementation:", out)
+        print("solver buffers (state, successful):", steps[:6])
+        print("oracle:", verdict or "property holds on this input")
+        return 1 if verdict is not None else 0
+    if r.get("kind") == "sweep":
+        common.quiet_impl_logging()
+        net = r["net"]
+        net["reactions"] = [tuple(x) for x in net["reactions"]]
+        tol, rel, r_idx, values = float(r["tol"]), bool(r["rel"]), int(r["r_idx"]), [float(v) for v in r["values"]]
+        sw = c15_hist.run_sweep(net, r_idx, values, tol, rel)
+        verdict = c15_hist.sweep_oracle(net, r_idx, values, tol, rel, sw)
+        for v, res in zip(values, sw["results"]):
+            print(f"p{r_idx}={v}:", res, "rate laws at the reported state:",
+                  c15_hist.expected_fluxes(c15_hist.net_with(net, r_idx, v), res.get("y")))
+        print("raised:", sw["raised"])
+        print("oracle:", verdict or "property holds on this sweep")
+        return 1 if (verdict is not None and verdict[0] == "violation") else 0
     if r.get("kind") == "scan":
         class _R:  # minimal Run stand-in
             def __init__(self):
